@@ -229,14 +229,14 @@ def run():
     chk.build_and_audit()
     r = C.rng("C06")
     quick = C.tier() != "thorough"
-    specs = scenarios(r, 120 if quick else 1200)
+    specs = scenarios(r, C.T(120, 1200))
     fails = D.run_specs(chk, "driver-level Memory wrapper / memory_dict vs _memory.py", specs, monitor)
     chk.monitor("C06 single-process statement (call log, memory_dict)", len(specs), fails)
-    n_pairs = 40 if quick else 400
+    n_pairs = C.T(40, 400)
     pm = chk.stage('paired memory runs', paired_memory, r, n_pairs)
     pf, pk = pm if pm else ([], set())
     chk.monitor("paired runs memory=True / memory=False, same seed", n_pairs * 2, pf, pk)
-    n_sh = 8 if quick else 120
+    n_sh = C.T(8, 120)
     sh = chk.stage('shared manager dict runs', shared_runs, r, n_sh, [2, 3] if quick else [2, 3, 4, 5, 6])
     sf, sk, sd, ss = sh if sh else ([], set(), [], [])
     chk.corr("shared manager dict: recorded global schedule replayed on GFO.Model.Shared (sRun)", n_sh, sd, sk, ss)
